@@ -435,5 +435,258 @@ Section RHP.
     rewrite pos_0 in H by assumption. apply H. intros j' Hj'. lia.
   Qed.
 
+
+  (* ---------------------------------------------------------------- 4b. insertion *)
+  Lemma insert_loop_S fuel (l : list slot) i j ch ce :
+    insert_loop K E keq ekey swap on_eq (S fuel) l i j ch ce =
+      match at_ l i with
+      | None => Some (upd i (Some (ch, ce)) l, true)
+      | Some (h, e) =>
+        if keq (ekey e) (ekey ce) then Some (upd i (Some (ch, on_eq e ce)) l, false)
+        else if swap j (dist (length l) i h)
+          then insert_loop K E keq ekey swap on_eq fuel (upd i (Some (ch, ce)) l)
+                 (nxt (length l) i) (S (dist (length l) i h)) h e
+          else insert_loop K E keq ekey swap on_eq fuel l (nxt (length l) i) (S j) ch ce
+      end.
+  Proof. reflexivity. Qed.
+
+  (* replacing the entry of a slot by one with the same key and home changes nothing
+     structurally *)
+  Lemma core_upd_same (l : list slot) i h e e' : core l -> at_ l i = Some (h, e) ->
+    ekey e' = ekey e -> core (upd i (Some (h, e')) l).
+  Proof.
+    intros [HL [Hwf Huq]] Hat Hk. pose proof (at_some_lt _ _ _ Hat) as Hi.
+    assert (Hwt : forall a, wt (upd i (Some (h, e')) l) a = wt l a).
+    { intros a. rewrite wt_upd by assumption. destruct (Nat.eqb_spec a i) as [->|]; [|reflexivity].
+      rewrite (wt_some _ _ _ _ Hat). reflexivity. }
+    split; [|split].
+    - intros a Ha. rewrite upd_length in *. rewrite !Hwt. apply HL; assumption.
+    - intros a g x Ha. rewrite upd_length. rewrite at_upd in Ha by assumption.
+      destruct (Nat.eqb_spec a i) as [->|].
+      + injection Ha as <- <-. rewrite Hk. eapply Hwf; eauto.
+      + eapply Hwf; eauto.
+    - intros a b g g' x x' Ha Hb Hxx. rewrite at_upd in Ha, Hb by assumption.
+      destruct (Nat.eqb_spec a i) as [->|Hna]; destruct (Nat.eqb_spec b i) as [->|Hnb]; auto.
+      + injection Ha as <- <-. eapply Huq; eauto. congruence.
+      + injection Hb as <- <-. eapply Huq; eauto. congruence.
+      + eapply Huq; eauto.
+  Qed.
+
+  (* placing the carried entry (home ch, offset j) into slot i = pos ch j *)
+  Lemma core_place (l : list slot) i j ch ce : core l ->
+    ch < length l -> j < length l -> i = pos (length l) ch j -> ch = hm (ekey ce) ->
+    Absent l (ekey ce) ->
+    (forall i', i' < length l -> nxt (length l) i' = i -> j <= wt l i') ->
+    wt l i <= S j ->
+    core (upd i (Some (ch, ce)) l).
+  Proof.
+    intros [HL [Hwf Huq]] Hch Hj Hi Hhm Habs Hprev Hold.
+    set (n := length l) in *.
+    assert (Hin : i < n) by (subst i; apply pos_lt; lia).
+    assert (Hw : forall a, wt (upd i (Some (ch, ce)) l) a = if a =? i then S j else wt l a).
+    { intros a. rewrite wt_upd by assumption. fold n. destruct (Nat.eqb_spec a i) as [->|]; [|reflexivity].
+      simpl. subst i. rewrite dist_pos by assumption. reflexivity. }
+    split; [|split].
+    - intros a Ha. rewrite upd_length in *. fold n in Ha |- *. rewrite !Hw.
+      pose proof (HL a Ha) as H1. fold n in H1.
+      destruct (Nat.eqb_spec (nxt n a) i) as [Hna|Hna]; destruct (Nat.eqb_spec a i) as [Hai|Hai]; try lia.
+      + pose proof (Hprev a Ha Hna). lia.
+      + subst a. lia.
+    - intros a g x Ha. rewrite upd_length. rewrite at_upd in Ha by assumption.
+      destruct (Nat.eqb_spec a i) as [->|].
+      + injection Ha as <- <-. auto.
+      + eapply Hwf; eauto.
+    - intros a b g g' x x' Ha Hb Hxx. rewrite at_upd in Ha, Hb by assumption.
+      destruct (Nat.eqb_spec a i) as [->|Hna]; destruct (Nat.eqb_spec b i) as [->|Hnb]; auto.
+      + injection Ha as <- <-. exfalso. eapply Habs; eauto.
+      + injection Hb as <- <-. exfalso. eapply Habs; eauto.
+      + eapply Huq; eauto.
+  Qed.
+
+  (* the key is not in the table: the entry (or the one it displaces, and so on) ends in the
+     first free slot; works for every displacement rule between `p < j` and `p <= j` *)
+  Lemma insert_loop_absent : forall fuel (l : list slot) i j ch ce z m,
+    core l ->
+    ch < length l -> j < length l -> i = pos (length l) ch j -> ch = hm (ekey ce) ->
+    Absent l (ekey ce) ->
+    (forall i', i' < length l -> nxt (length l) i' = i -> j <= wt l i') ->
+    z = pos (length l) i m -> at_ l z = None -> j + m < length l -> m < fuel ->
+    exists l', insert_loop K E keq ekey swap on_eq fuel l i j ch ce = Some (l', true) /\
+      core l' /\ length l' = length l /\
+      (forall x, Holds l' x <-> Holds l x \/ x = ce) /\
+      occupied l' = S (occupied l).
+  Proof.
+    induction fuel as [|f IH]; intros l i j ch ce z m Hc Hch Hj Hi Hhm Habs Hprev Hz Hzn Hjm Hfuel; [lia|].
+    pose proof Hc as [HL [Hwf Huq]].
+    rewrite insert_loop_S. set (n := length l) in *.
+    assert (Hin : i < n) by (subst i; apply pos_lt; lia).
+    destruct (at_ l i) as [[h e]|] eqn:Hat.
+    - assert (Hm0 : m <> 0).
+      { intros ->. rewrite pos_0 in Hz by assumption. subst z. congruence. }
+      destruct (keq (ekey e) (ekey ce)) eqn:Hk.
+      { apply keq_spec in Hk. exfalso. eapply Habs; eauto. }
+      assert (Hkne : ekey e <> ekey ce).
+      { intros Heq. apply keq_spec in Heq. congruence. }
+      destruct (Hwf _ _ _ Hat) as [Hhe Hh]. fold n in Hh.
+      set (p := dist n i h).
+      assert (Hpm : p + m < n).
+      { apply (path_no_empty l i h e z m); auto. fold n. lia. }
+      assert (Hwi : wt l i = S p) by (rewrite (wt_some _ _ _ _ Hat); reflexivity).
+      destruct (swap j p) eqn:Hsw.
+      + apply swap_le in Hsw.
+        assert (Hc1 : core (upd i (Some (ch, ce)) l)).
+        { apply (core_place l i j ch ce); auto. fold n. lia. }
+        set (l1 := upd i (Some (ch, ce)) l) in *.
+        assert (Hlen1 : length l1 = n) by apply upd_length.
+        assert (Hzi : z <> i) by (intros ->; congruence).
+        destruct (IH l1 (nxt n i) (S p) h e z (m - 1)) as [l' [Hr [Hc' [Hlen' [Hh' Ho']]]]]; auto.
+        * rewrite Hlen1. assumption.
+        * rewrite Hlen1. lia.
+        * rewrite Hlen1. unfold p. rewrite <- nxt_pos by (try apply dist_lt; auto; fold p; lia).
+          rewrite pos_dist by assumption. reflexivity.
+        * intros a g x Ha Hx. unfold l1 in Ha. rewrite at_upd in Ha by assumption.
+          destruct (Nat.eqb_spec a i) as [->|Hne].
+          -- injection Ha as _ <-. congruence.
+          -- assert (a = i) by (eapply Huq; eauto). contradiction.
+        * rewrite Hlen1. intros a Ha Hnx. apply nxt_inj in Hnx; auto. subst a.
+          unfold l1. rewrite wt_upd by assumption. rewrite Nat.eqb_refl. simpl. fold n.
+          subst i. rewrite dist_pos by assumption. lia.
+        * rewrite Hlen1. rewrite <- pos_S_nxt by lia. replace (S (m - 1)) with m by lia. assumption.
+        * unfold l1. rewrite at_upd_ne by auto. assumption.
+        * rewrite Hlen1. lia.
+        * lia.
+        * exists l'. split; [exact Hr|]. split; [exact Hc'|]. split; [lia|]. split.
+          -- intros x. rewrite Hh'. unfold l1. apply (Holds_upd_some l i h e ch ce x Hat).
+          -- rewrite Ho'. f_equal. unfold l1.
+             pose proof (occupied_upd i (Some (ch, ce)) l Hin) as Hou. rewrite Hat in Hou. simpl in Hou. lia.
+      + apply swap_ge in Hsw.
+        destruct (IH l (nxt n i) (S j) ch ce z (m - 1)) as [l' [Hr [Hc' [Hlen' [Hh' Ho']]]]]; auto.
+        * fold n. lia.
+        * fold n. subst i. rewrite nxt_pos by lia. reflexivity.
+        * fold n. intros a Ha Hnx. apply nxt_inj in Hnx; auto. subst a. lia.
+        * fold n. rewrite <- pos_S_nxt by lia. replace (S (m - 1)) with m by lia. assumption.
+        * fold n. lia.
+        * lia.
+        * exists l'. auto.
+    - exists (upd i (Some (ch, ce)) l). split; [reflexivity|]. split.
+      { apply (core_place l i j ch ce); auto. rewrite (wt_none _ _ Hat). lia. }
+      split; [apply upd_length|]. split.
+      + intros x. apply Holds_upd_none; assumption.
+      + pose proof (occupied_upd i (Some (ch, ce)) l Hin) as Hou. rewrite Hat in Hou. simpl in Hou. lia.
+  Qed.
+
+  (* the key is already held (slot i0): under the STRICT rule nothing is displaced before
+     the probe reaches it *)
+  Lemma insert_loop_present (l : list slot) ch ce i0 eold : core l ->
+    (forall j p, swap j p = true -> p < j) ->
+    ch = hm (ekey ce) -> ch < length l ->
+    at_ l i0 = Some (ch, eold) -> ekey eold = ekey ce ->
+    forall fuel j, j <= dist (length l) i0 ch -> dist (length l) i0 ch - j < fuel ->
+      insert_loop K E keq ekey swap on_eq fuel l (pos (length l) ch j) j ch ce
+        = Some (upd i0 (Some (ch, on_eq eold ce)) l, false).
+  Proof.
+    intros Hc Hstrict Hhm Hch Hat0 Hk0. pose proof Hc as [HL [Hwf Huq]].
+    pose proof (at_some_lt _ _ _ Hat0) as Hi0.
+    set (n := length l) in *. set (d := dist n i0 ch).
+    assert (Hd : d < n) by (apply dist_lt; assumption).
+    induction fuel as [|f IH]; intros j Hj Hfuel; [lia|].
+    rewrite insert_loop_S. fold n.
+    destruct (Nat.eq_dec j d) as [->|Hne].
+    - unfold d. rewrite pos_dist by assumption. rewrite Hat0.
+      assert (Hkk : keq (ekey eold) (ekey ce) = true) by (apply keq_spec; assumption).
+      rewrite Hkk. reflexivity.
+    - pose proof (RHL_path l i0 ch eold HL Hch Hat0 j Hj) as Hp. fold n in Hp.
+      set (i := pos n ch j) in *.
+      destruct (wt_pos_some l i ltac:(lia)) as [h [e Hat]]. rewrite Hat.
+      rewrite (wt_some _ _ _ _ Hat) in Hp. fold n in Hp.
+      destruct (keq (ekey e) (ekey ce)) eqn:Hk.
+      { exfalso. apply keq_spec in Hk. assert (i = i0) by (eapply Huq; eauto; congruence).
+        assert (H2 : pos n ch j = pos n ch d) by (unfold d; rewrite pos_dist by assumption; exact H).
+        apply pos_inj in H2; lia. }
+      destruct (swap j (dist n i h)) eqn:Hsw.
+      { apply Hstrict in Hsw. lia. }
+      unfold i. rewrite nxt_pos by lia. apply IH; lia.
+  Qed.
+
+  (* Table_Set_Move / GC_Set_Ptr on the raw array, key absent: any admissible rule *)
+  Theorem insert_absent_spec (l : list slot) ce : core l ->
+    hm (ekey ce) < length l -> occupied l < length l -> Absent l (ekey ce) ->
+    exists l', insert K E keq ekey swap on_eq l (hm (ekey ce)) ce = Some (l', true) /\
+      core l' /\ length l' = length l /\
+      (forall x, Holds l' x <-> Holds l x \/ x = ce) /\
+      occupied l' = S (occupied l).
+  Proof.
+    intros Hc Hh Hocc Habs. destruct (empty_slot_exists l Hocc) as [z [Hz Hzn]].
+    unfold insert. set (n := length l) in *.
+    apply (insert_loop_absent (2 * n + 2) l (hm (ekey ce)) 0 (hm (ekey ce)) ce z (dist n z (hm (ekey ce)))); auto.
+    - fold n. lia.
+    - fold n. rewrite pos_0; auto.
+    - intros; lia.
+    - fold n. rewrite pos_dist; auto.
+    - fold n. pose proof (dist_lt n z (hm (ekey ce)) Hh Hz). lia.
+    - pose proof (dist_lt n z (hm (ekey ce)) Hh Hz). lia.
+  Qed.
+
+  (* key present: strict rule only (the non-strict rule duplicates the key, see
+     table_nonstrict_refuted) *)
+  Theorem insert_present_spec (l : list slot) ce i0 h0 eold : core l ->
+    (forall j p, swap j p = true -> p < j) ->
+    hm (ekey ce) < length l -> at_ l i0 = Some (h0, eold) -> ekey eold = ekey ce ->
+    insert K E keq ekey swap on_eq l (hm (ekey ce)) ce
+      = Some (upd i0 (Some (hm (ekey ce), on_eq eold ce)) l, false) /\ h0 = hm (ekey ce).
+  Proof.
+    intros Hc Hstrict Hh Hat Hk. pose proof Hc as [HL [Hwf Huq]].
+    destruct (Hwf _ _ _ Hat) as [Hh0 _]. rewrite Hk in Hh0. subst h0. split; [|reflexivity].
+    unfold insert. set (n := length l) in *.
+    pose proof (insert_loop_present l (hm (ekey ce)) ce i0 eold Hc Hstrict eq_refl Hh Hat Hk (2 * n + 2) 0) as H.
+    fold n in H. rewrite pos_0 in H by assumption. apply H; [lia|].
+    pose proof (dist_lt n i0 (hm (ekey ce)) Hh (at_some_lt _ _ _ Hat)). lia.
+  Qed.
+
+  (* both cases in one statement, finite-map reading:  the result holds exactly the old
+     entries with other keys plus one entry for the key *)
+  Theorem insert_spec (l : list slot) ce : core l ->
+    (forall j p, swap j p = true -> p < j) ->
+    hm (ekey ce) < length l -> occupied l < length l ->
+    exists l' fresh newe, insert K E keq ekey swap on_eq l (hm (ekey ce)) ce = Some (l', fresh) /\
+      core l' /\ length l' = length l /\
+      (forall x, Holds l' x <-> x = newe \/ (Holds l x /\ ekey x <> ekey ce)) /\
+      ekey newe = ekey ce /\
+      (fresh = true -> Absent l (ekey ce) /\ newe = ce /\ occupied l' = S (occupied l)) /\
+      (fresh = false -> (exists eold, Holds l eold /\ ekey eold = ekey ce /\ newe = on_eq eold ce)
+                        /\ occupied l' = occupied l).
+  Proof.
+    intros Hc Hstrict Hh Hocc. pose proof Hc as [HL [Hwf Huq]].
+    destruct (find_spec l (ekey ce) Hc Hh) as [r [_ Hr]].
+    destruct r as [i0|].
+    - destruct Hr as [eold [Hat Hk]].
+      destruct (insert_present_spec l ce i0 _ eold Hc Hstrict Hh Hat Hk) as [Hins _].
+      pose proof (at_some_lt _ _ _ Hat) as Hi0.
+      exists (upd i0 (Some (hm (ekey ce), on_eq eold ce)) l), false, (on_eq eold ce).
+      split; [exact Hins|]. split; [apply core_upd_same with (e := eold); auto; rewrite on_eq_key; auto|].
+      split; [apply upd_length|]. split; [|split; [auto|split; [discriminate|]]].
+      + intros x. pose proof (Holds_upd_some l i0 _ eold (hm (ekey ce)) (on_eq eold ce) x Hat) as HH.
+        split.
+        * intros Hx. destruct (proj1 HH (or_introl Hx)) as [Hl|]; [|auto].
+          destruct Hx as [a [g Ha]]. rewrite at_upd in Ha by assumption.
+          destruct (Nat.eqb_spec a i0) as [->|Hne]; [left; congruence|].
+          right. split; [assumption|]. intros Hkx.
+          assert (a = i0) by (eapply Huq; eauto; congruence). contradiction.
+        * intros [->|[Hl Hkx]].
+          -- exists i0, (hm (ekey ce)). apply at_upd_eq; assumption.
+          -- destruct (proj2 HH (or_introl Hl)) as [Hx| ->]; [assumption|]. congruence.
+      + intros _. split.
+        * exists eold. split; [exists i0, (hm (ekey ce)); exact Hat|auto].
+        * pose proof (occupied_upd i0 (Some (hm (ekey ce), on_eq eold ce)) l Hi0) as Hou.
+          rewrite Hat in Hou. simpl in Hou. lia.
+    - destruct (insert_absent_spec l ce Hc Hh Hocc Hr) as [l' [Hins [Hc' [Hlen [Hh' Ho]]]]].
+      exists l', true, ce. split; [exact Hins|]. split; [exact Hc'|]. split; [exact Hlen|].
+      split; [|split; [reflexivity|split; [auto|discriminate]]].
+      intros x. rewrite Hh'. split.
+      + intros [Hl| ->]; [|auto]. right. split; [assumption|].
+        destruct Hl as [a [g Ha]]. eapply Hr; eauto.
+      + intros [->|[Hl _]]; auto.
+  Qed.
+
   End Fixed.
 End RHP.
